@@ -14,7 +14,7 @@ RULE = ("(e) explicit-state BFS to a fixpoint: IdentityDict vs a list-of-pairs r
         "is the ordered (key, value) list, every transition is executed on the real object. (a) every well-formed wrapper tower "
         "of depth <= D over {partial, wraps-wrapper, bound method, classmethod, staticmethod, class-attribute access}: "
         "get_code(tower) must be the code object recorded by the base function when the tower is called, and a registration "
-        "through the tower must land on it. (b) every nesting path of depth <= 3 (thorough: 4; towers: D = 3 quick / 5 thorough) over {function, class, async function, lambda-free} "
+        "through the tower must land on it. (b) every nesting path of depth <= 3 (thorough: 5; towers: D = 3 quick / 6 thorough) over {function, class, async function, lambda-free} "
         "with unique names. (c) pairs of equal-but-distinct code objects: registration affects only the registered one, the latest "
         "registration wins. (d) 2^3 flags x {no elaborate, returns None, returns replacement, returns PRUNE, returns []} x {direct, decorator, nested-name}. "
         "(each also observed through extract_outermost). (f) customize on the first of 2..4 sibling stack items handed over together by the hook of the frame outward of them: prune / replacement removes all of them. states/transitions count leg (e); evaluations counts all legs.")
@@ -27,7 +27,7 @@ def legs(tier):
 
 
 def bounds(tier):
-    return {"tower_depth": 3 if tier == "quick" else 5, "nesting_depth": 3 if tier == "quick" else 4}
+    return {"tower_depth": 3 if tier == "quick" else 6, "nesting_depth": 3 if tier == "quick" else 5}
 
 
 # ------------------------------------------------------------------ (a) towers
